@@ -3,16 +3,31 @@
 functions of a unit (otherwise: every function tagged with the property by a `//@ prop`
 directive, or untagged)."""
 
+VERUS_TRUST = "Trusted: Verus/Z3/rustc; vstd's specifications of Vec, slices, str (len, as_bytes, chars, slicing preconditions), Option/Result; "
+
 PROPS = {
+    "C01": {
+        "units": ["dewey"],
+        "design_ref": "DESIGN.md section 8 / C01",
+        "replay": "dewey",
+        "level_text": "Unbounded proof on the real functions: DeweyVersion::new (loop invariant over a ghost character index, "
+                      "per-token-class unfolding lemmas) returns exactly the statement's token sequence vtok(s) for every string whose "
+                      "digit runs have at most 18 digits, and dewey_cmp/dewey_test return op_holds(op, cmp3(..)) for all component "
+                      "vectors. One recorded known finding (letter value = ASCII code, not rank) is isolated by a named deviation.",
+        "level_note": VERUS_TRUST + "assumed std contracts: str::to_ascii_lowercase, String::len, Result::unwrap_or, char::is_ascii_* (scalar), "
+                      "shims for take_while(is_ascii_digit).collect, parse::<i64> (1..18 digits only), starts_with(literal); "
+                      "axioms |s| <= usize::MAX and the byte range of &s[a..b]. UTF-8 offset facts are proved from vstd::utf8, not assumed.",
+    },
     "C03": {
-        "units": ["dewey_order"],
+        "units": ["dewey"],
+        "always_devs": ["letter_value_is_ascii_code"],
         "design_ref": "DESIGN.md section 8 / C03",
-        "replay": "dewey_order",
+        "replay": "dewey",
         "level_text": "Unbounded proof: dewey_test/dewey_cmp (real code, extracted each run) are proved equal to the "
                       "statement-derived comparison cmp3 for all component vectors of all lengths (three loop invariants), and "
                       "reflexivity, antisymmetry/swap, trichotomy, duality and transitivity are lemmas over cmp3.",
-        "level_note": "Trusted: Verus/Z3, vstd specs of Vec/slices/usize::cmp, assumed contract of core::cmp::min. "
-                      "The laws are over arbitrary i64 vectors, so they cover whatever DeweyVersion::new returns.",
+        "level_note": VERUS_TRUST + "assumed contract of core::cmp::min. "
+                      "The laws are over arbitrary integer vectors, so they cover whatever DeweyVersion::new returns on any string.",
     },
 }
 
